@@ -604,6 +604,9 @@ func (fc *FnCtx) execInstr(in ssa.Instruction) {
 		fc.vals[x] = V{Ty: x.Type(), T: []string{r}}
 		arr := fc.heapGet(fc.cur, "ghost:closed", fieldSort(sBool))
 		fc.heapSet(fc.cur, "ghost:closed", fieldSort(sBool), sx("store", arr, r, "false"))
+		// the capacity the channel was made with (spec: chancap(ch)); 0 = unbuffered
+		carr := fc.heapGet(fc.cur, "ghost:chancap", fieldSort(sBV(64)))
+		fc.heapSet(fc.cur, "ghost:chancap", fieldSort(sBV(64)), sx("store", carr, r, fc.toInt64(fc.val(x.Size))))
 	case *ssa.MakeClosure:
 		fc.makeClosure(x)
 	case *ssa.Lookup:
